@@ -55,6 +55,7 @@ pub fn run(cfg: &RunCfg) -> Ctx {
     all.floor("race2.with_clear", 10);
     all.merge(par_cases(&c, "race3", cfg.n(90, 2500), || (), |_, rng, ctx, _| race3_case(rng, ctx)));
     all.floor("race3.histories", 40);
+    all.merge(par_cases(&c, "fresh", 22, || (), |_, rng, ctx, i| fresh_case(rng, ctx, i)));
     for k in ["seq.typed_set", "seq.check_found", "seq.check_not_found", "seq.watch_not_found", "seq.watch_items", "seq.stream_ended_by_clear", "seq.several_updates_after_subscription", "seq.redundant_set_then_change", "seq.set_then_clear_unpolled", "conc.histories_linearizable", "conc.watch_items"] {
         all.floor(k, 5);
     }
@@ -851,4 +852,41 @@ fn race3_case(rng: &mut Rng, ctx: &mut Ctx) {
             ctx.fingerprint(format!("race3|k{}", kw), true);
         }
     }
+}
+
+/// A fresh reporter knows the empty name (SERVING) and nothing else: names nobody ever set - the
+/// health service's own, other well-known services, odd spellings - are NOT_FOUND for Check and Watch.
+fn fresh_case(rng: &mut Rng, ctx: &mut Ctx, i: u64) {
+    const NAMES: &[&str] = &["grpc.health.v1.Health", "grpc.reflection.v1.ServerReflection", "grpc.reflection.v1alpha.ServerReflection", "health", "Health", "/", " ", "*", "grpc.health.v1.Health/Check", "a", "verif.v1.Verif"];
+    let name = NAMES[(i as usize) % NAMES.len()];
+    ctx.begin("fresh", json!({"name": name}));
+    let (_reporter, server) = tonic_health::server::health_reporter();
+    let mut client = HealthClient::new(Loopback::new(server, rng.u64(), 1 << 20));
+    let mut ex = Exec::new();
+    match ex.block_on(10_000, client.check(HealthCheckRequest { service: name.into() })) {
+        Out::Done(Err(e)) if e.code() == tonic::Code::NotFound => {}
+        Out::Done(Ok(r)) => ctx.violation("check-found-unregistered", format!("check({:?}) on a fresh reporter returned {} although that name was never set", name, r.get_ref().status)),
+        Out::Done(Err(e)) => ctx.violation("check-wrong-code", format!("check({:?}) on a fresh reporter failed with {:?}", name, e.code())),
+        _ => ctx.violation("check-hang", "check did not complete".into()),
+    }
+    match ex.block_on(10_000, client.watch(HealthCheckRequest { service: name.into() })) {
+        Out::Done(Err(e)) if e.code() == tonic::Code::NotFound => {}
+        Out::Done(Ok(resp)) => {
+            let mut st = resp.into_inner();
+            match ex.block_on(10_000, st.message()) {
+                Out::Done(Err(e)) if e.code() == tonic::Code::NotFound => {}
+                Out::Done(Ok(Some(m))) => ctx.violation("watch-found-unregistered", format!("watch({:?}) on a fresh reporter reported {} although that name was never set", name, m.status)),
+                other => ctx.violation("watch-found-unregistered", format!("watch({:?}) on a fresh reporter: {:?}", name, match other { Out::Done(x) => format!("{:?}", x.map(|o| o.map(|m| m.status)).map_err(|e| e.code())), Out::Stalled => "pending".into(), Out::Budget => "busy".into() })),
+            }
+        }
+        Out::Done(Err(e)) => ctx.violation("watch-wrong-code", format!("{:?}", e.code())),
+        _ => ctx.violation("watch-hang", "watch did not complete".into()),
+    }
+    // and the empty name is SERVING
+    match ex.block_on(10_000, client.check(HealthCheckRequest { service: String::new() })) {
+        Out::Done(Ok(r)) if r.get_ref().status == 1 => {}
+        other => ctx.violation("default-not-serving", format!("check(\"\") on a fresh reporter: {:?}", match other { Out::Done(x) => format!("{:?}", x.map(|r| r.get_ref().status).map_err(|e| e.code())), _ => "did not complete".into() })),
+    }
+    ctx.count("fresh.names");
+    ctx.fingerprint(format!("fresh|{}", name), true);
 }
